@@ -336,6 +336,46 @@ def explore_stmts(run, n_random):
                 os.unlink(path2)
             except OSError:
                 pass
+        # a statement on one attribute whose right-hand side calls a function that reads ANOTHER thread-safe attribute (on
+        # another source line): what the statement leaves held must not depend on that
+        templates = ["o.x += %s", "o.x -= %s + 1", "o.x = %s", "v0 = o.x + %s", "o.x *= (%s)", "o.x += %s * %s"]
+        path3 = os.path.join(VERIF, "harness", "_gen_two_attr_%d.py" % os.getpid())
+        src3 = ["def f(a):\n    return 3\n", "def g(o):\n    r = o.y\n    return r\n"]
+        for k, t in enumerate(templates):
+            for tag, call in (("g", "g(o)"), ("f", "f(3)")):
+                src3.append("def s%d%s(o, v0):\n    %s\n" % (k, tag, t.replace("%s", call)))
+        with open(path3, "w") as fh:
+            fh.write("\n".join(src3))
+        try:
+            spec3 = importlib.util.spec_from_file_location("_gen_two_attr", path3)
+            mod3 = importlib.util.module_from_spec(spec3)
+            spec3.loader.exec_module(mod3)
+            for k, t in enumerate(templates):
+                held = {}
+                for tag in ("f", "g"):
+                    class Obj4(metaclass=mtsa.MetaThreadSafeAttributes):
+                        _attributes = ["x", "y"]
+                    o4 = Obj4()
+                    dx, dy = Obj4.__dict__["x"], Obj4.__dict__["y"]
+                    dx._lock, dy._lock = dsched.DRLock(), dsched.DRLock()
+                    o4.y = 2
+                    try:
+                        getattr(mod3, "s%d%s" % (k, tag))(o4, 1)
+                        held[tag] = (dx._lock._count, dy._lock._count)
+                    except Exception as ex:  # noqa
+                        held[tag] = "raised %s" % type(ex).__name__
+                cj = {"what": "stmt-two-attributes", "stmt": t.replace("%s", "g(o)")}
+                run.count("statement whose right-hand side reads another thread-safe attribute in a called function")
+                if held["g"] != held["f"]:
+                    run.violate("C28/lock-leak/other-attribute-in-called-function",
+                                "`%s` (g reads o.y on its own line) leaves (x, y) locks held %s; with a function that touches no attribute: %s"
+                                % (t.replace("%s", "g(o)"), held["g"], held["f"]), cj)
+                run.case(cj, nontrivial=True)
+        finally:
+            try:
+                os.unlink(path3)
+            except OSError:
+                pass
         # the documented lock form
         import tsa_stmts
 
